@@ -487,9 +487,9 @@ def extract(ctx):
         for o in seq:
             if o["op"] not in ("create", "chmod", "write", "lock", "lockw", "unlink", "close") or o["f"] == "dir":
                 drift.append(f"{nm}: step outside the vocabulary {o}")
-    refuse, how = extract_refusals(ctx, cacq, cut or 0, drift)
+    refuse, how, refuse_gone = extract_refusals(ctx, cacq, cut or 0, drift)
     return {"GuardCreate": gcreate, "GuardDrop": gdrop, "CleanerAcquire": cacq, "CleanerDrop": cdrop,
-            "CleanerRefuse": refuse, "RefuseHow": how, "NState": cut or 0, "AcquireCalls": acq,
+            "CleanerRefuse": refuse, "CleanerRefuseGone": refuse_gone, "RefuseHow": how, "NState": cut or 0, "AcquireCalls": acq,
             "NodeMap": nodemap}, drift
 
 
@@ -501,15 +501,11 @@ def extract_refusals(ctx, cacq, nstate, drift):
     A step whose failure cannot be provoked with the unchanged protocol (F_GETLK of the state file: the guard is
     dead; a blocking lock) gets the tail "close what is open, in reverse order"; a real trace that differs is DRIFT
     of the state layer, the property layer judges the real calls anyway."""
-    tails, how = [], []
-    for j, o in enumerate(cacq, start=1):
-        opened = [x["f"] for x in cacq[:j - 1] if x["op"] == "open"]
-        default = [{"op": "close", "f": f, "perm": "none"} for f in reversed(opened)]
-        if o["op"] not in ("open", "lock"):
-            tails.append(default)
-            how.append("assumed")
-            continue
-        r = Run(ctx, f"dry-refuse-{j}", {}, stepped=True, free=("G",))
+    tails, how, gone_tails = [], [], []
+
+    def race(j, o, gone):
+        """the tail of step j; gone: the winner has already unlinked the file of (lock) step j"""
+        r = Run(ctx, f"dry-refuse-{j}{'g' if gone else ''}", {}, stepped=True, free=("G",))
         tail = None
         try:
             r.run_cmd("G")
@@ -520,7 +516,7 @@ def extract_refusals(ctx, cacq, nstate, drift):
                 r.proc("C1")
                 r.finish("C1")
                 ok = r.state.get("C1") == "owner"
-                if ok and o["op"] == "open":
+                if ok and (o["op"] == "open" or gone):
                     ok = r.run_until_done("C1", lambda a: a["op"] == "unlink" and a["f"] == o["f"])
                 n0 = len(r.records())
                 r.finish("C2")
@@ -537,16 +533,21 @@ def extract_refusals(ctx, cacq, nstate, drift):
         finally:
             r.close()
         shutil.rmtree(r.dir, ignore_errors=True)
-        if tail is None:
-            tails.append(default)
-            how.append("assumed")
-            continue
-        for x in tail:
+        for x in tail or []:
             if x["op"] not in ("fstat", "close", "unlink", "chmod", "unlock") or x["f"] == "dir":
                 drift.append(f"refusal tail of acquire step {j}: step outside the vocabulary {x}")
-        tails.append(tail)
-        how.append("extracted")
-    return tails, how
+        return tail
+
+    for j, o in enumerate(cacq, start=1):
+        opened = [x["f"] for x in cacq[:j - 1] if x["op"] == "open"]
+        default = [{"op": "close", "f": f, "perm": "none"} for f in reversed(opened)]
+        tail = race(j, o, False) if o["op"] in ("open", "lock") else None
+        tails.append(default if tail is None else tail)
+        how.append("assumed" if tail is None else "extracted")
+        # the lock step failing on a file that has lost its name (the winner holds the lock and has unlinked it)
+        gtail = race(j, o, True) if o["op"] == "lock" and tail is not None else None
+        gone_tails.append(tails[-1] if gtail is None else gtail)
+    return tails, how, gone_tails
 
 
 # ---------------------------------------------------------------------------------------------
@@ -578,13 +579,14 @@ def write_mc(ctx, name, ext, base, cfgd, invariants, excused, trace=False):
                 f"GuardCreateSeq == {tla_seq(ext['GuardCreate'])}\nGuardDropSeq == {tla_seq(ext['GuardDrop'])}\n"
                 f"CleanerAcquireSeq == {tla_seq(ext['CleanerAcquire'])}\nCleanerDropSeq == {tla_seq(ext['CleanerDrop'])}\n"
                 f"CleanerRefuseSeq == {tla_seqseq(ext['CleanerRefuse'])}\n"
+                f"CleanerRefuseGoneSeq == {tla_seqseq(ext['CleanerRefuseGone'])}\n"
                 f"NodeMapVal == {nm}\nLevelsVal == {level}\n"
                 f"ExcusedVal == {{{', '.join(tla_sig(s) for s in excused)}}}\n"
                 f"CrashPhasesVal == {tla_set(cfgd.get('crash', []))}\n====\n")
     with open(os.path.join(d, name + ".cfg"), "w") as f:
         f.write(("SPECIFICATION TraceSpec\n" if trace else "SPECIFICATION Spec\n") + "CONSTANTS\n"
                 " GuardCreate <- GuardCreateSeq\n GuardDrop <- GuardDropSeq\n CleanerAcquire <- CleanerAcquireSeq\n"
-                " CleanerDrop <- CleanerDropSeq\n CleanerRefuse <- CleanerRefuseSeq\n NodeMap <- NodeMapVal\n Levels <- LevelsVal\n Excused <- ExcusedVal\n"
+                " CleanerDrop <- CleanerDropSeq\n CleanerRefuse <- CleanerRefuseSeq\n CleanerRefuseGone <- CleanerRefuseGoneSeq\n NodeMap <- NodeMapVal\n Levels <- LevelsVal\n Excused <- ExcusedVal\n"
                 " GuardCrashPhases <- CrashPhasesVal\n"
                 f" Monitors = {tla_set(cfgd.get('monitors', []))}\n Cleaners = {tla_set(cfgd.get('cleaners', []))}\n"
                 f" Privileged = {'TRUE' if cfgd.get('priv', True) else 'FALSE'}\n"
@@ -890,10 +892,11 @@ def run(ctx):
     def fmt_ops(v):
         return [f"{o['op']}({o['f']}{',' + o['perm'] if o['perm'] != 'none' else ''})" for o in v]
     ctx.coverage["extracted"] = {k: (fmt_ops(v) if isinstance(v, list) else v) for k, v in ext.items()
-                                 if k not in ("CleanerRefuse", "AcquireCalls", "RefuseHow")}
+                                 if k not in ("CleanerRefuse", "CleanerRefuseGone", "AcquireCalls", "RefuseHow")}
     ctx.coverage["extracted"]["CleanerRefuse"] = [
-        {"after_failed": fmt_ops([o])[0], "tail": fmt_ops(t), "how": h}
-        for o, t, h in zip(ext["CleanerAcquire"], ext["CleanerRefuse"], ext["RefuseHow"])]
+        dict({"after_failed": fmt_ops([o])[0], "tail": fmt_ops(t), "how": h},
+             **({"tail_when_the_file_is_unlinked": fmt_ops(g)} if o["op"] == "lock" else {}))
+        for o, t, h, g in zip(ext["CleanerAcquire"], ext["CleanerRefuse"], ext["RefuseHow"], ext["CleanerRefuseGone"])]
     known = [tuple(s) for s in known_sigs(ctx)]
     if not ext["GuardCreate"] or not ext["GuardDrop"] or not ext["CleanerDrop"] or not ext["CleanerAcquire"]:
         print("DRIFT: step sequences could not be extracted; model checking skipped")
